@@ -180,7 +180,11 @@ func (r *Run) finish() int {
 	for i := range r.Obls {
 		o := &r.Obls[i]
 		if o.Status == "violated" {
-			if kf, ok := openKeys[o.Key]; ok {
+			base := o.Key
+			if i := strings.Index(base, "@"); i >= 0 {
+				base = base[:i]
+			}
+			if kf, ok := openKeys[base]; ok {
 				o.Status = "known-finding"
 				nKnown++
 				fmt.Printf("KNOWN-FINDING: property=%s %s %s\n", r.Prop, o.Key, kf.What)
